@@ -585,13 +585,23 @@ def _close_term(x, y, rtol, atol):
     if isnum(y):
         tol = toz(atol + rtol * abs(float(y)))
     else:
-        yz = toz(y)
-        tol = toz(atol) + toz(rtol) * (yz if E.decide(yz >= 0) else -yz)
+        tol = toz(atol) + toz(rtol) * abs_var(toz(y))
     d = toz(x) - toz(y)
     return BoolT(z3.And(d <= tol, -d <= tol))
 
 
-def _proved_equal(pairs, timeout_ms=2000):
+def abs_var(yz):
+    """|y| as a fresh variable a with a >= 0, a*a == y*y (exact, polynomial, no fork and no If-term)"""
+    key = ('abs', yz.get_id())
+    if key in E.labels:
+        return E.labels[key][1]
+    a = E.fresh('abs')
+    E.defs += [a >= 0, a * a == yz * yz]
+    E.labels[key] = (yz, a)
+    return a
+
+
+def _proved_equal(pairs, timeout_ms=1500):
     """True when the path hypotheses prove x == y for every pair (short budget; False = not known)"""
     goal = z3.And(*[toz(x) == toz(y) for x, y in pairs])
     goal = z3.simplify(goal)
